@@ -27,6 +27,7 @@ func init() {
 		ID: "C17",
 		Rule: "exhaustive: every constraint keyword in every position (schema, query/header/path parameter, form-data field, response header, shared parameter), " +
 			"every security scheme kind and OAuth2 flow, every host/basePath/schemes combination, responses with/without schema × with/without headers × produces, " +
+			"operation summary / description / deprecated / tags and security requirements at operation and document level (empty lists and zero values included), " +
 			"each as a one-feature document; then a seeded random stream of type-directed OpenAPI 2 documents (shared parameters/responses/definitions with references, " +
 			"nested/allOf/additionalProperties schemas, x-nullable, discriminator, file uploads, body or form parameters). " +
 			"A case is non-trivial when the model reports at least one feature branch (keyword@position, reference kind, exclusion class).",
@@ -39,7 +40,7 @@ func init() {
 		Assumptions: []string{
 			"scalar constraint values are opaque: only non-zero values are generated (Go omits zero values when marshalling)",
 			"encoding/json, the openapi2/openapi3 (un)marshallers and ResolveRefsIn are exercised, not modelled",
-			"(*openapi3.T).Validate is modelled only by the component-name check (#38); generated documents stay inside what the rest of Validate accepts",
+			"(*openapi3.T).Validate is modelled only by the component-name check (#38) and the request-body content rule (F-C17-14); generated documents stay inside what the rest of Validate accepts",
 			"a shared form parameter is recognised in a v3 document by the library's own bookkeeping extension x-formData-name",
 			"operations with formData parameters declare a form media type in consumes (required by the OpenAPI 2 specification)",
 			"servers: an absent scheme is read as https and an absent base path as / (the converter's documented defaults)",
@@ -426,6 +427,49 @@ func c17Resp3(v any) any {
 
 var c17Methods = []string{"delete", "get", "head", "options", "patch", "post", "put"}
 
+var c17OpMetaFields = []string{"summary", "description", "deprecated", "tags"}
+
+// c17OpMeta: what an operation object says beyond id, parameters and responses (zero values are "absent")
+func c17OpMeta(op map[string]any) map[string]any {
+	m := map[string]any{}
+	for _, k := range c17OpMetaFields {
+		switch x := op[k].(type) {
+		case nil:
+		case string:
+			if x != "" {
+				m[k] = x
+			}
+		case bool:
+			if x {
+				m[k] = x
+			}
+		case []any:
+			if len(x) > 0 {
+				m[k] = x
+			}
+		default:
+			m[k] = x
+		}
+	}
+	return m
+}
+
+// c17OpSecurity: the operation's own security requirements (`[]` is a value, absent is nil)
+func c17OpSecurity(op map[string]any) any {
+	if l, ok := op["security"].([]any); ok {
+		return l
+	}
+	return nil
+}
+
+// c17DocSecurity: the document-level security requirements (an empty list says nothing)
+func c17DocSecurity(d map[string]any) any {
+	if l, ok := d["security"].([]any); ok && len(l) > 0 {
+		return l
+	}
+	return nil
+}
+
 func c17Sec2(v any) any {
 	s := c17_jmap(v)
 	str := func(k string) string { x, _ := s[k].(string); return x }
@@ -513,7 +557,7 @@ func c17Api2(d map[string]any) any {
 				resps = append(resps, map[string]any{"status": st, "r": c17Resp2(rm[st])})
 			}
 			opId, _ := op["operationId"].(string)
-			ops = append(ops, map[string]any{"path": p, "method": m, "opId": opId, "inputs": inputs, "responses": resps})
+			ops = append(ops, map[string]any{"path": p, "method": m, "opId": opId, "inputs": inputs, "responses": resps, "meta": c17OpMeta(op), "security": c17OpSecurity(op)})
 		}
 		if l := jlist(pi["parameters"]); len(l) > 0 {
 			inputs := []any{}
@@ -558,7 +602,7 @@ func c17Api2(d map[string]any) any {
 	for _, k := range c17_sortedKeys(sm) {
 		secs = append(secs, map[string]any{"name": k, "s": c17Sec2(sm[k])})
 	}
-	return map[string]any{"ops": ops, "pathParams": pathParams, "shared": shared, "sharedResponses": sresps, "defs": defs, "servers": servers, "security": secs}
+	return map[string]any{"ops": ops, "pathParams": pathParams, "shared": shared, "sharedResponses": sresps, "defs": defs, "servers": servers, "security": secs, "securityReq": c17DocSecurity(d)}
 }
 
 func c17Api3(d map[string]any) any {
@@ -584,7 +628,7 @@ func c17Api3(d map[string]any) any {
 				resps = append(resps, map[string]any{"status": st, "r": c17Resp3(rm[st])})
 			}
 			opId, _ := op["operationId"].(string)
-			ops = append(ops, map[string]any{"path": p, "method": m, "opId": opId, "inputs": inputs, "responses": resps})
+			ops = append(ops, map[string]any{"path": p, "method": m, "opId": opId, "inputs": inputs, "responses": resps, "meta": c17OpMeta(op), "security": c17OpSecurity(op)})
 		}
 		if l := jlist(pi["parameters"]); len(l) > 0 {
 			inputs := []any{}
@@ -637,7 +681,7 @@ func c17Api3(d map[string]any) any {
 	for _, k := range c17_sortedKeys(sm) {
 		secs = append(secs, map[string]any{"name": k, "s": c17Sec3(sm[k])})
 	}
-	return map[string]any{"ops": ops, "pathParams": pathParams, "shared": shared, "sharedResponses": sresps, "defs": defs, "servers": servers, "security": secs}
+	return map[string]any{"ops": ops, "pathParams": pathParams, "shared": shared, "sharedResponses": sresps, "defs": defs, "servers": servers, "security": secs, "securityReq": c17DocSecurity(d)}
 }
 
 // ---------------------------------------------------------------- comparison
@@ -649,7 +693,7 @@ func c17Canon(v any, opaque bool) any {
 	case map[string]any:
 		out := map[string]any{}
 		for k, y := range x {
-			out[k] = c17Canon(y, opaque || k == "sc")
+			out[k] = c17Canon(y, opaque || k == "sc" || k == "meta" || k == "securityReq" || (k == "security" && !c17IsNamedList(y)))
 		}
 		return out
 	case []any:
@@ -671,6 +715,17 @@ func c17Canon(v any, opaque bool) any {
 	return v
 }
 
+// the Api's "security" key holds the named security schemes (a list of {name, s}); an operation's "security" key
+// holds its requirement list, which is opaque (order kept)
+func c17IsNamedList(v any) bool {
+	l, ok := v.([]any)
+	if !ok || len(l) == 0 {
+		return false
+	}
+	m, ok := l[0].(map[string]any)
+	return ok && m["name"] != nil && m["s"] != nil
+}
+
 func c17Same(a, b any) bool {
 	return hx.Canon(c17Canon(a, false)) == hx.Canon(c17Canon(b, false))
 }
@@ -681,7 +736,7 @@ func c17Diff(a, b any) string {
 	if am == nil || bm == nil {
 		return fmt.Sprintf("%s vs %s", trunc(hx.Canon(a)), trunc(hx.Canon(b)))
 	}
-	for _, k := range []string{"ops", "pathParams", "shared", "sharedResponses", "defs", "servers", "security"} {
+	for _, k := range []string{"ops", "pathParams", "shared", "sharedResponses", "defs", "servers", "security", "securityReq"} {
 		if !c17Same(am[k], bm[k]) {
 			al, bl := jlist(c17Canon(am[k], false)), jlist(c17Canon(bm[k], false))
 			for i := 0; i < len(al) || i < len(bl); i++ {
@@ -897,8 +952,8 @@ func (g *g17) ref() map[string]any {
 
 // pure additionalProperties sub-schema: references only along the additionalProperties chain
 func (g *g17) addlSchema(depth int) any {
-	if !g.clean && !g.noRef && len(g.defs) > 0 && g.r.Chance(35) {
-		return g.ref()
+	if !g.noRef && len(g.defs) > 0 && g.r.Chance(35) {
+		return g.ref() // rewritten in both directions since dfc5235
 	}
 	if !g.clean && g.r.Chance(g.addlBad) {
 		// not completely converted by convertRefsInV3SchemaRef (class AddlSubschemaUnconverted)
@@ -976,7 +1031,7 @@ func (g *g17) schema(depth int, density int) map[string]any {
 					m["required"] = req
 				}
 			}
-			if !g.clean && g.r.Chance(10) {
+			if g.r.Chance(10) { // copied back since e0e4b64
 				ks := c17_sortedKeys(props)
 				m["discriminator"] = ks[0]
 				pm := c17_jmap(props[ks[0]])
@@ -1034,12 +1089,13 @@ func (g *g17) defSchema(depth, density int, cyclic bool) map[string]any {
 	if g.r.Chance(30) {
 		m["required"] = []any{c17_sortedKeys(props)[0]}
 	}
-	if g.clean {
-		if g.r.Chance(20) {
-			m["additionalProperties"] = g.r.Bool()
-		}
-	} else if g.r.Chance(25) {
-		m["additionalProperties"] = g.ref()
+	switch {
+	case g.r.Chance(25):
+		m["additionalProperties"] = g.ref() // may be the definition itself: the rewrite on the way back stops at a reference
+	case g.r.Chance(15):
+		m["additionalProperties"] = map[string]any{"type": "object", "additionalProperties": g.ref()}
+	case g.r.Chance(15):
+		m["additionalProperties"] = g.r.Bool()
 	}
 	return m
 }
@@ -1493,6 +1549,30 @@ func genC17Exhaustive(emit func(hx.Case)) {
 		op["consumes"] = form
 		emit(hx.Case{"doc": c17Doc(map[string]any{"/x": map[string]any{"post": op}})})
 	}
+	// operation metadata and security requirements (operation level: `security: []` is a value; zero values are absent)
+	for _, kv := range [][2]any{
+		{"summary", "short"}, {"description", "long text"}, {"deprecated", true}, {"tags", []any{"pets", "admin"}}, {"tags", []any{"b", "a", "b"}},
+		{"summary", ""}, {"deprecated", false}, {"tags", []any{}},
+		{"security", []any{}}, {"security", []any{map[string]any{"s": []any{}}}},
+		{"security", []any{map[string]any{"o": []any{"read", "write"}}, map[string]any{"s": []any{}, "o": []any{"read"}}}},
+	} {
+		for _, docSec := range []any{nil, []any{}, []any{map[string]any{"s": []any{}}}, []any{map[string]any{"o": []any{"write"}}, map[string]any{"s": []any{}}}} {
+			op := c17Op("g", []any{map[string]any{"name": "q", "in": "query", "type": "string"}}, nil)
+			op[kv[0].(string)] = kv[1]
+			d := c17Doc(map[string]any{"/x": map[string]any{"get": op, "post": c17Op("p", nil, nil)}})
+			d["securityDefinitions"] = map[string]any{"s": c17Sec("basic", nil), "o": c17Sec("accessCode", nil)}
+			if docSec != nil {
+				d["security"] = docSec
+			}
+			emit(hx.Case{"doc": d})
+		}
+	}
+	all4 := c17Op("g", nil, nil)
+	all4["summary"], all4["description"], all4["deprecated"], all4["tags"] = "s", "d", true, []any{"t"}
+	all4["security"] = []any{map[string]any{"s": []any{}}}
+	all4d := c17Doc(map[string]any{"/x": map[string]any{"get": all4}})
+	all4d["securityDefinitions"] = map[string]any{"s": c17Sec("apiKey", nil)}
+	emit(hx.Case{"doc": all4d})
 	// the names FromV3 tries for the body parameter are taken by other parameters
 	for _, names := range [][]string{{"body"}, {"requestBody"}, {"body", "requestBody"}} {
 		params := []any{map[string]any{"name": "payload", "in": "body", "schema": map[string]any{"type": "object"}}}
@@ -1626,6 +1706,25 @@ func (g *g17) randomDoc() map[string]any {
 		d["responses"] = sr
 	}
 	// security
+	secNames := []string{}
+	secReq := func() []any {
+		l := []any{}
+		for i, k := 0, r.Intn(3); i < k && len(secNames) > 0; i++ {
+			req := map[string]any{}
+			for j, kj := 0, 1+r.Intn(2); j < kj; j++ {
+				scopes := []any{}
+				if r.Bool() {
+					scopes = append(scopes, "read")
+					if r.Bool() {
+						scopes = append(scopes, "write")
+					}
+				}
+				req[hx.Pick(r, secNames)] = scopes
+			}
+			l = append(l, req)
+		}
+		return l
+	}
 	if r.Chance(50) {
 		sd := map[string]any{}
 		for i, k := 0, 1+r.Intn(3); i < k; i++ {
@@ -1633,6 +1732,10 @@ func (g *g17) randomDoc() map[string]any {
 			sd[hx.Pick(r, []string{"A", "B", "Pet.v1", "sec_" + kind, "lim"})] = c17Sec(kind, r)
 		}
 		d["securityDefinitions"] = sd
+		secNames = c17_sortedKeys(sd)
+		if r.Chance(40) {
+			d["security"] = secReq() // may be empty: says nothing
+		}
 	}
 	// paths
 	paths := map[string]any{}
@@ -1723,6 +1826,21 @@ func (g *g17) randomDoc() map[string]any {
 			}
 			op["operationId"] = fmt.Sprintf("op%d", opn)
 			op["responses"] = resps
+			if r.Chance(25) {
+				op["summary"] = g.pick("short", "list things")
+			}
+			if r.Chance(20) {
+				op["description"] = g.pick("long text", "")
+			}
+			if r.Chance(15) {
+				op["deprecated"] = r.Chance(80)
+			}
+			if r.Chance(25) {
+				op["tags"] = g.pick([]any{"pets"}, []any{"b", "a"}, []any{})
+			}
+			if r.Chance(25) {
+				op["security"] = secReq() // `[]`: this operation needs no authentication
+			}
 			if len(params) > 0 {
 				// shuffle: the order of parameters is not part of the API
 				for x := len(params) - 1; x > 0; x-- {
